@@ -280,6 +280,13 @@ pub fn universe(mapping: &[u8], rng: &mut Rng, cfg: &UniCfg) -> Vec<Query> {
                         lines.push(s + (e - s) / 2);
                     }
                 }
+                // the same lines shifted by multiples of 2^32 (a reader that truncates the frame line)
+                #[cfg(target_pointer_width = "64")]
+                for (s, e) in info.ranges.iter().take(3) {
+                    lines.push((1usize << 32) + *s);
+                    lines.push((1usize << 32) + *e);
+                    lines.push((3usize << 32) + s + (e.saturating_sub(*s)) / 2);
+                }
             }
             lines.sort_unstable();
             lines.dedup();
@@ -335,6 +342,18 @@ pub fn universe(mapping: &[u8], rng: &mut Rng, cfg: &UniCfg) -> Vec<Query> {
         q.push(Query::TraceText(t.clone()));
         q.push(Query::TraceTyped(t.clone()));
         q.push(Query::TraceText(t.replace('\n', "\r\n")));
+        // unusual but legal shapes
+        let known = class_names.get(1).or(class_names.first()).cloned().unwrap_or_else(|| "a".into());
+        let f0 = frame_texts.first().cloned().unwrap_or_else(|| "    at a.a(SourceFile:1)".into());
+        let cause_first = format!("Caused by: {}: inner\n{}\n    ... 3 more\n", known, f0);
+        q.push(Query::TraceText(cause_first.clone()));
+        q.push(Query::TraceTyped(cause_first));
+        q.push(Query::TraceText(format!("{}\n", f0.replace("    at ", "\tat "))));
+        q.push(Query::TraceText(format!("{}: a message with at x.y(Z.java:1) inside: and colons\n\n{}\n\n", exc, f0)));
+        q.push(Query::TraceText(t.trim_end().to_string()));
+        q.push(Query::TraceText(format!("{}\n\n", t)));
+        q.push(Query::TraceText(format!("{}  ", t.trim_end())));
+        q.push(Query::TraceTyped(format!("{}\n\n", t)));
         q.push(Query::TraceText("not a trace at all\n\n  \u{e9}\u{e9}: x".into()));
         q.push(Query::TraceTyped(frame_texts.join("\n")));
         // signatures
